@@ -9,13 +9,17 @@ to EVERY failure point: `C18_append_every_point` — whatever prefix of the work
 is still at its path with exactly the content it had (append mode), other trees and the header are untouched
 (`C09_other_roots`), and the result is again the encoding of a well-formed tree, so no scratch group exists.
 A half-written NEW node sits under a name that was free (`createIn` refuses names that resolve), below its parent, and
-cannot be on the path of any pre-existing node.  Finer granularity (the individual attribute / dataset mutations inside
-one node write, and the cleanup of a half-written root metadata entry — the repaired defect) is covered by fault
-enumeration on the real code: the check fails EVERY h5py mutation of every generated append in turn.
+cannot be on the path of any pre-existing node.  Finer granularity — the individual h5py mutations (create group /
+dataset, set / delete attribute, delete, move, link, dataset write): EmdModel/Mutations.lean gives them a semantics on the
+store; `C18_mutation_step` / `C18_every_interruption` (EmdProofs/MutFrame.lean): after ANY prefix of a sequence of
+ADDITIVE mutations every object the file held is still at its path with the same attributes and value.  The check records
+the mutation sequence the real code performs (every generated append, every injected failure incl. the writer's cleanup),
+replays it in the model (the model's file must be the real file, every mutation executable) and evaluates `additive`.
 Append-over is not failure-atomic for the nodes it replaces: known finding C18-K1; `C18_appendover_counterexample`
 exhibits it in the model's own terms (the replace step is delete-then-write).
 -/
 import EmdProps.C10
+import EmdProofs.MutFrame
 
 set_option linter.unusedSimpArgs false
 
@@ -143,5 +147,43 @@ theorem C18_appendover_counterexample :
 -- non-vacuity: the C09 example runtime tree written only as far as its first node `a` (without `a/new`)
 example : PrunedKids [.mk { name := "a", cls := "Node", gtype := "node", body := [] } []] exR.kids :=
   .keep _ _ _ _ (.mk _ _ _ (.nil _)) (.nil _)
+
+/-! ## The granularity of single HDF5 mutations -/
+
+/-- C18, one mutation: a mutation that creates something, or that changes / removes only objects that were not in the file
+    `f0` the save started from, keeps every object `f0` held — at its path, with the same attributes and (datasets) the
+    same value -/
+theorem C18_mutation_step (f0 f f' : Obj) (m : Mut) (hk : Kept f0 f) (ha : additive f0 m = true)
+    (h : applyMut f m = some f') : Kept f0 f' := Kept_applyMut f0 f f' m hk ha h
+
+/-- C18, every interruption point: after ANY prefix of a sequence of additive mutations (a mutation that raises changes
+    nothing and the sequence goes on, e.g. with the writer's cleanup) the file holds everything it held.  The check records
+    the mutation sequence the real code performs for every generated append and every injected failure, replays it with
+    `replay` (the model's file must equal the real file) and evaluates `additive` on every element: in plain append mode
+    all of them are additive. -/
+theorem C18_every_interruption (f0 : Obj) (ms : List Mut) (k : Nat) (ha : ∀ m ∈ ms, additive f0 m = true) :
+    Kept f0 (replay f0 f0 (ms.take k)).1 :=
+  Kept_replay f0 (ms.take k) f0 (Kept_refl f0) (fun m hm => ha m (List.mem_of_mem_take hm))
+
+/-- what `Kept` says, spelled out for one pre-existing dataset: it is still there with its attributes and its value -/
+theorem C18_dataset_kept (f0 f : Obj) (hk : Kept f0 f) (p : List String) (a : Attrs) (v : DVal)
+    (h : f0.at p = some (.dataset a v)) : f.at p = some (.dataset a v) := by
+  obtain ⟨o, ho, he⟩ := hk p _ h
+  cases o with
+  | group b ks => simp [shallowEq] at he
+  | dataset b w => simp only [shallowEq] at he; rw [ho, he.1, he.2]
+
+-- non-vacuity: a file with one tree; an append creating a group with tags and a dataset, interrupted anywhere, then a
+-- cleanup deleting the half-written group: all additive; the append-over step `move` of an existing node is not
+def exFile0 : Obj := .group [("emd_group_type", .str "file")]
+  [("r", .group [("emd_group_type", .str "root")] [("a", .group [("emd_group_type", .str "node")] [("data", .dataset [] (.tok "T"))])])]
+def exTrace : List Mut :=
+  [.mkGroup ["r", "a"] "new", .setAttr ["r", "a", "new"] "emd_group_type" (.str "array"),
+   .mkDataset ["r", "a", "new"] "data" (.tok "U"), .setAttr ["r", "a", "new", "data"] "units" (.str "nm"),
+   .delete ["r", "a"] "new"]
+example : exTrace.all (additive exFile0) = true ∧ (replay exFile0 exFile0 exTrace).2.all (·.2) = true := by decide
+example : ((replay exFile0 exFile0 (exTrace.take 4)).1.at ["r", "a", "new", "data"]).isSome = true ∧
+    ((replay exFile0 exFile0 exTrace).1.at ["r", "a", "new"]).isSome = false := by decide
+example : additive exFile0 (.move ["r"] "a" "_tmp_a") = false ∧ additive exFile0 (.setAttr ["r", "a"] "python_class" (.str "X")) = false := by decide
 
 end EmdProps
